@@ -1136,6 +1136,18 @@ impl<'a> Parser<'a> {
         }
     }
 
+    /// Name of slot 0 of the innermost enclosing method. Functions nested in a method give their own
+    /// slot 0 the empty name, so the receiver has to be looked up further out.
+    fn receiver_name(&self) -> String {
+        for compiler in self.compilers.iter().rev() {
+            let name = &compiler.locals[0].name;
+            if !name.is_empty() {
+                return name.clone();
+            }
+        }
+        String::new()
+    }
+
     fn emit_return(&mut self) {
         if self.compiler().kind == FunctionKind::Initialiser {
             self.emit_bytes([OpCode::GetLocal as u8, 0]);
@@ -1794,7 +1806,7 @@ impl<'a> Parser<'a> {
         let previous = s.previous.clone();
         let name = s.identifier_constant(&previous);
 
-        let instance_local_name = s.compiler().locals[0].name.clone();
+        let instance_local_name = s.receiver_name();
         s.named_variable(Token::from_string(instance_local_name.as_str()), false);
         if s.match_token(TokenKind::LeftParen) {
             let arg_count = s.argument_list(
